@@ -5,7 +5,7 @@ from ..core import rule
 from ..index import AnalysisError, dotted, src, walk_no_nested, names_in
 from ..cfg import CFG, eval3, UNK
 from ..domains import check_pred, linform, Lin, assignments, eval_pred
-from ..util import node_calls, pred_is, cfg_nodes_containing, explore, mk_atoms, enclosing_loops, last_name
+from ..util import node_calls, pred_is, cfg_nodes_containing, explore, mk_atoms, enclosing_loops, last_name, own_expr
 from .slots import BARCODEPARSER
 
 CLS = 'BarcodeParser'
@@ -353,6 +353,49 @@ def r5(ctx):
     if gi is not None:
         ok = any(isinstance(x, ast.Call) and src(x.func) == 'self.parse_pending_barcode_file_of_alias' for x in walk_no_nested(gi))
         ctx.emit('C03-R5', ok, BARCODEPARSER, gi, 'parser[alias] loads a pending alias through the expanding helper', key='getitem-loader')
+
+
+@rule('C03', 'C03-R6', 'what a method decides about one barcode file / one alias does not depend on what an earlier call left behind: an instance attribute that a '
+                       'method assigns is never read in that method before it was assigned in the same call (a flag set while parsing one file must not '
+                       'decide how the next file is read)')
+def r6(ctx):
+    cls = ctx.ix.cls(BARCODEPARSER, CLS)
+    n_attr = 0
+    bad = []
+    for m in [x for x in cls.body if isinstance(x, ast.FunctionDef) and x.name != '__init__']:
+        stores = {}
+        for n_ in walk_no_nested(m):
+            if isinstance(n_, ast.Attribute) and isinstance(n_.value, ast.Name) and n_.value.id == 'self' and isinstance(n_.ctx, ast.Store):
+                stores.setdefault(n_.attr, []).append(n_)
+        if not stores:
+            continue
+        cfg = CFG(m.body, exceptions=False)
+        dom = cfg.dominators()
+        for attr, sts in stores.items():
+            n_attr += 1
+            store_nodes = {nd.id for nd in cfg.nodes if nd.kind == 'stmt' and isinstance(nd.ast, (ast.Assign, ast.AugAssign))
+                           and any(isinstance(t_, ast.Attribute) and isinstance(t_.value, ast.Name) and t_.value.id == 'self' and t_.attr == attr and isinstance(nd.ast, ast.Assign)
+                                   for t_ in (nd.ast.targets if isinstance(nd.ast, ast.Assign) else [nd.ast.target]))}
+            for nd in cfg.nodes:
+                e_ = own_expr(nd)
+                if e_ is None:
+                    continue
+                exprs = [e_]
+                if nd.kind == 'stmt' and isinstance(nd.ast, ast.Assign):
+                    exprs = [nd.ast.value] + [t_ for t_ in nd.ast.targets if not (isinstance(t_, ast.Attribute) and t_.attr == attr)]
+                elif nd.kind == 'stmt' and isinstance(nd.ast, ast.AugAssign):
+                    exprs = [nd.ast.value, nd.ast.target]
+                loads = [x for ex in exprs for x in walk_no_nested(ex) if isinstance(x, ast.Attribute) and isinstance(x.value, ast.Name) and x.value.id == 'self' and x.attr == attr
+                         and (isinstance(x.ctx, ast.Load) or (nd.kind == 'stmt' and isinstance(nd.ast, ast.AugAssign)))]
+                if loads and not ((dom[nd.id] - {nd.id}) & store_nodes):
+                    bad.append((m.name, attr, loads[0]))
+                    break
+    for mname, attr, node in bad:
+        ctx.emit('C03-R6', False, BARCODEPARSER, node, f'{CLS}.{mname} reads self.{attr} on a path on which this call has not assigned it yet, and assigns it elsewhere in the same method: '
+                 'the value left by an earlier call (another barcode file) decides this one', key=f'stale-instance-state:{mname}:{attr}',
+                 what=f'{CLS}.{mname}: instance attribute {attr} carries a per-file decision over to the next call')
+    if not bad:
+        ctx.emit('C03-R6', True, BARCODEPARSER, cls, f'{n_attr} instance attributes assigned by methods of {CLS}: none is read before it is assigned in the same call', key='stale-instance-state', nontrivial=n_attr > 0)
 
 
 META = {
